@@ -371,7 +371,10 @@ func (v *FnVC) freshTyped(name string, t types.Type, st *State, guard Term) Val 
 func (v *FnVC) assumeTyped(val Val, t types.Type, st *State, guard Term) {
 	switch x := val.(type) {
 	case Sc:
-		if lo, hi, ok := intRange(t); ok {
+		if n, isFlags := v.w.Contracts.FlagSets[typeKey(types.Unalias(t))]; isFlags && n > 0 && n < 62 {
+			// declared `flagset T n`: a value of T is a set of the n flags, nothing above them is ever set
+			v.sc.Assert(Implies(guard, And(Le(tZero, x.T), Lt(x.T, IntLit(int64(1)<<uint(n))))))
+		} else if lo, hi, ok := intRange(t); ok {
 			v.sc.Assert(Implies(guard, And(Le(BigLit(lo), x.T), Le(x.T, BigLit(hi)))))
 		} else if isRefType(t) && st != nil {
 			v.sc.Assert(Implies(guard, Le(x.T, st.allocPtr)))
@@ -511,6 +514,15 @@ func (v *FnVC) subAddr(skey, fname string, base Term) Term {
 	kind := v.sc.DeclareFun("subkind", []Sort{SInt}, SInt)
 	t := app(SInt, fn, base)
 	key := "subaddr:" + t.S
+	if strings.Contains(t.S, "q.") {
+		// under a binder of a contract the per-term facts below would be dropped: state them once for all terms
+		if qk := "subaddr-all:" + name; !v.ufs[qk] {
+			v.ufs[qk] = true
+			kid := v.w.TagID(types.NewNamed(types.NewTypeName(token.NoPos, nil, name, nil), types.Typ[types.Int], nil))
+			v.sc.Raw(fmt.Sprintf("(assert (forall ((sa.b Int)) (! (and (< (%s sa.b) 0) (= (%s (%s sa.b)) sa.b) (= (subkind (%s sa.b)) %d)) :pattern ((%s sa.b)))))", fn, inv, fn, fn, kid, fn))
+		}
+		return t
+	}
 	if !v.ufs[key] {
 		v.ufs[key] = true
 		kid := v.w.TagID(types.NewNamed(types.NewTypeName(token.NoPos, nil, name, nil), types.Typ[types.Int], nil))
@@ -527,6 +539,14 @@ func (v *FnVC) elemAddr(et types.Type, arr, idx Term) Term {
 	kind := v.sc.DeclareFun("subkind", []Sort{SInt}, SInt)
 	t := app(SInt, fn, arr, idx)
 	key := "subaddr:" + t.S
+	if strings.Contains(t.S, "q.") {
+		if qk := "subaddr-all:" + name; !v.ufs[qk] {
+			v.ufs[qk] = true
+			kid := v.w.TagID(types.NewNamed(types.NewTypeName(token.NoPos, nil, name, nil), types.Typ[types.Int], nil))
+			v.sc.Raw(fmt.Sprintf("(assert (forall ((sa.a Int) (sa.i Int)) (! (and (< (%s sa.a sa.i) 0) (= (%s (%s sa.a sa.i)) sa.a) (= (%s (%s sa.a sa.i)) sa.i) (= (subkind (%s sa.a sa.i)) %d)) :pattern ((%s sa.a sa.i)))))", fn, inva, fn, invi, fn, fn, kid, fn))
+		}
+		return t
+	}
 	if !v.ufs[key] {
 		v.ufs[key] = true
 		kid := v.w.TagID(types.NewNamed(types.NewTypeName(token.NoPos, nil, name, nil), types.Typ[types.Int], nil))
